@@ -877,7 +877,10 @@ func (ts *TestScript) condition(cond string) (bool, error) {
 		return cond == runtime.GOARCH, nil
 	case strings.HasPrefix(cond, "exec:"):
 		prog := cond[len("exec:"):]
-		ok := execCache.Do(prog, func() any {
+		// The answer depends on the PATH of this script, which can differ
+		// from that of other scripts sharing the process-wide cache.
+		key := prog + "\x00" + ts.Getenv("PATH")
+		ok := execCache.Do(key, func() any {
 			_, err := execpath.Look(prog, ts.Getenv)
 			return err == nil
 		}).(bool)
